@@ -153,6 +153,7 @@ func loadMaterial(dir string) *material {
 	}
 	m.loadPGPStructs()
 	m.loadLeafAlgs()
+	m.loadRenewals()
 	return m
 }
 
@@ -216,6 +217,8 @@ func (m *material) generate() {
 	must(os.WriteFile(m.path("ring-arm1-AB.pgp"), armored(cat(rawA, rawB)), 0o644))
 	must(os.WriteFile(m.path("ring-arm2-BA.pgp"), cat(armored(rawB), armored(rawA)), 0o644))
 	must(os.WriteFile(m.path("ring-arm2-AB.pgp"), cat(armored(rawA), armored(rawB)), 0o644))
+	// certificate files with several end-entity certificates for one subject
+	m.generateRenewals()
 	// OpenPGP certificates with subkeys
 	m.generatePGPStructs()
 	m.loadPGPStructs()
